@@ -24,8 +24,17 @@ def authMechOf (u : Bytes) : Option AuthSpec.Mech :=
 def isMailUnit (u : Bytes) : Bool :=
   (str "MAIL FROM:").isPrefixOf u || (str "RCPT TO:").isPrefixOf u || u == dataLine || (str "AUTH ").isPrefixOf u
 
+/-- flags `<add root 0|1|2><store none><accept invalid certs><accept invalid hostnames>[<platform trusts the test CA>]` -/
+def expHandshake (cert : Cert) (flags : String) : Bool :=
+  match flags.toList with
+  | a :: sn :: aic :: aih :: rest =>
+    let addRoot := if a == '1' then 1 else if a == '2' then 2 else 0
+    let platform := rest.head? == some '1'
+    expectHandshakeA cert (anchored addRoot (sn == '1') platform) (aic == '1') (aih == '1')
+  | _ => false
+
 /-- C06 on the implementation's real transcript -/
-def oracle (mode : Mode) (cert : Cert) (flags : List Bool) (hasCreds : Bool) (user pass msg : Bytes)
+def oracle (mode : Mode) (cert : Cert) (flagStr : String) (hasCreds : Bool) (user pass msg : Bytes)
     (clearScript tlsScript : List Step)
     (result handshake : String) (clear tls : List Bytes) : Option String :=
   let ehlo := ehloLine (str "c.example")
@@ -41,9 +50,7 @@ def oracle (mode : Mode) (cert : Cert) (flags : List Bool) (hasCreds : Bool) (us
   if o1.isSome then o1 else
   let _ := (user, pass, hasCreds, secretIn)
   -- O6: the handshake outcome is what the configured connector must give
-  let expHs := match flags with
-    | [addRoot, _, aic, aih] => expectHandshake cert addRoot aic aih
-    | _ => false
+  let expHs := expHandshake cert flagStr
   if handshake == "ok" && !expHs then some "handshake-succeeded-although-certificate-must-be-rejected" else
   if handshake == "failed" && expHs then some "handshake-failed-although-certificate-must-be-accepted" else
   -- O2: fail closed
@@ -86,13 +93,14 @@ def tlsOp : List String → String
           hexList clearU, hexList tlsU with
     | some mode, some cert, some user, some pass, some msg, some cs, some ts, some cu, some tu =>
       let hasCreds := mechs != "-"
-      match oracle mode cert (bits flags) hasCreds user pass msg cs ts result handshake cu tu with
+      match oracle mode cert flags hasCreds user pass msg cs ts result handshake cu tu with
       | some e => propfail e
       | none =>
         let fl := bits flags
         -- a peer that closes right after its reply to STARTTLS cannot complete a handshake
         let starttlsCloses := mode != .wrapper && ((cs.drop 2).head?.map (·.close)).getD false
-        let hs := (match fl with | [a, _, c, d] => expectHandshake cert a c d | _ => false) && !starttlsCloses
+        let _ := fl
+        let hs := expHandshake cert flags && !starttlsCloses
         let creds := if hasCreds then (parseMechs mechs).map fun ms => (ms, user, pass) else none
         let cfg : Cfg := ⟨mode, hs, str "c.example", creds⟩
         let (o, r) := sendOnce bufCheck cfg cs ts (some (str "a@b.c")) [str "x@y.z"] msg
